@@ -3,6 +3,9 @@ package props
 import (
 	"bytes"
 	"fmt"
+	"github.com/dave/dst/decorator/resolver/goast"
+	"github.com/dave/dst/decorator/resolver/simple"
+	"go/token"
 	"math/rand"
 	"reflect"
 	"regexp"
@@ -32,7 +35,7 @@ func init() {
 			"go/format is the reference for the edited text; generated layouts or edited texts on which gofmt is not idempotent are inconclusive",
 			"'uniform separators' is decided from the text and gofmt only (edge blank lines must survive gofmt)",
 		},
-		Required: map[string]int{"list_kinds": 12, "edit_kinds": 7, "separators": 2},
+		Required: map[string]int{"list_kinds": 14, "edit_kinds": 7, "separators": 2},
 	})
 }
 
@@ -48,7 +51,12 @@ type c02Kind struct {
 	noDup bool
 	join  string // text between the two lists
 	skip  int    // fixed leading elements of the container that are not chunks
+	// imports: the elements are package-qualified identifiers; the file is decorated and printed with
+	// import management, so each element is a single path-carrying identifier
+	imports bool
 }
+
+var pkNames = simple.New(map[string]string{"x/pk": "pk"})
 
 func c02FuncBody(f *dst.File, name string) *dst.BlockStmt {
 	for _, d := range f.Decls {
@@ -257,6 +265,32 @@ var c02Kinds = []c02Kind{
 		},
 		slice: func(f *dst.File, l string) reflect.Value {
 			return sv(&c02GenDecl(f, "first"+l).Specs[0].(*dst.ValueSpec).Values[0].(*dst.CompositeLit).Elts)
+		}},
+	{name: "composite-literal-elements-qualified", head: "package p\n\nimport \"x/pk\"\n\n", blank: true, imports: true,
+		open:  func(l string) string { return "var first" + l + " = []interface{}{" },
+		close: func(l string) string { return "}" },
+		join:  "\n",
+		elem: func(t string, inner bool, v int) []string {
+			if inner {
+				return []string{"pk. /*I " + t + "*/ " + t + ","}
+			}
+			return []string{"pk." + t + ","}
+		},
+		slice: func(f *dst.File, l string) reflect.Value {
+			return sv(&c02GenDecl(f, "first"+l).Specs[0].(*dst.ValueSpec).Values[0].(*dst.CompositeLit).Elts)
+		}},
+	{name: "call-arguments-qualified", head: "package p\n\nimport \"x/pk\"\n\n", imports: true,
+		open:  func(l string) string { return "var first" + l + " = f(" },
+		close: func(l string) string { return ")" },
+		join:  "\n",
+		elem: func(t string, inner bool, v int) []string {
+			if inner {
+				return []string{"pk. /*I " + t + "*/ " + t + ","}
+			}
+			return []string{"pk." + t + ","}
+		},
+		slice: func(f *dst.File, l string) reflect.Value {
+			return sv(&c02GenDecl(f, "first"+l).Specs[0].(*dst.ValueSpec).Values[0].(*dst.CallExpr).Args)
 		}},
 	{name: "call-arguments", head: "package p\n\n",
 		open:  func(l string) string { return "var first" + l + " = f(" },
@@ -574,7 +608,13 @@ func c02One(c *fw.Ctx, id string, i int) {
 	hist := c02History(r, kind.noDup)
 
 	// dst side
-	f, err := decorator.Parse(canon)
+	var f *dst.File
+	var err error
+	if kind.imports {
+		f, err = decorator.NewDecoratorWithImports(token.NewFileSet(), "x/self", goast.WithResolver(pkNames)).Parse(canon)
+	} else {
+		f, err = decorator.Parse(canon)
+	}
 	if err != nil {
 		c.Violate("parse-failed", "parse-failed", id+": "+err.Error(), canon)
 		return
@@ -698,7 +738,20 @@ func c02Run(c *fw.Ctx, id string, kind c02Kind, blank bool, lay *c02Layout, hist
 		c.Count("inconclusive_edited_text_not_gofmt_idempotent", 1)
 		return
 	}
-	got, perr := printFile(f)
+	got, perr := "", ""
+	if kind.imports {
+		var buf bytes.Buffer
+		if sig, detail := fw.Try(func() {
+			if e := decorator.NewRestorerWithImports("x/self", pkNames).Fprint(&buf, f); e != nil {
+				perr = e.Error()
+			}
+		}); sig != "" {
+			perr = sig + "\n" + detail
+		}
+		got = buf.String()
+	} else {
+		got, perr = printFile(f)
+	}
 	sepName := "newline"
 	if blank {
 		sepName = "blank-line"
@@ -723,6 +776,9 @@ func c02Run(c *fw.Ctx, id string, kind c02Kind, blank bool, lay *c02Layout, hist
 	{
 		var buf bytes.Buffer
 		rs := decorator.NewRestorer()
+		if kind.imports {
+			rs = decorator.NewRestorerWithImports("x/self", pkNames)
+		}
 		rs.Extras = true
 		var xerr error
 		if sig, detail := fw.Try(func() { xerr = rs.Fprint(&buf, f) }); sig != "" {
